@@ -131,6 +131,8 @@ beh("f03_window", ["C03"], [SUB("authorize", "none", nb=2, na=30), SUB("authoriz
 beh("f03_relayed", ["C03"], [A("k3", "e1", "n1"), dict(SUB("fetch", "flipSig"), relay=True), dict(SUB("fetch", "flipBundle"), relay=True), dict(SUB("fetch", "none", nb=-2000, na=-40), relay=True),
                              dict(SUB("fetch", "none", nb=40, na=2000), relay=True), dict(SUB("fetch", "signedByOther", k="k2", e="e2", n="n2"), relay=True), dict(SUB("fetch", "noiseBundle"), relay=True),
                              dict(SUB("fetch", "truncSig"), relay=True)])
+beh("f03_during_valid_call", ["C03"], [dict(SUB("authorize", "flipSig"), during=True), dict(SUB("authorize", "flipBundle", k="k2", e="e2", n="n2"), during=True),
+                                       dict(SUB("authorize", "none", nb=-2000, na=-40), during=True), dict(SUB("authorize", "signedByOther"), during=True), dict(SUB("authorize", "truncSig"), during=True)])
 beh("f03_after_auth", ["C03"], [A("k1", "e1", "n1"), SUB("fetch", "flipSig"), SUB("fetch", "none", nb=-2000, na=-40), SUB("fetch", "none", nb=40, na=2000),
                                 SUB("fetch", "signedByOther"), SUB("fetch", "none")])
 
